@@ -218,11 +218,12 @@ def shacl_digest(text):
         import rdflib.compare
         try:
             g = rdflib.Graph().parse(data=text, format="turtle")
-            _ISO_CACHE[h] = (len(g), rdflib.compare.to_isomorphic(g).internal_hash())
+            val = (len(g), rdflib.compare.to_isomorphic(g).internal_hash())
         except Exception as exc:
-            _ISO_CACHE[h] = ("unparsable", h, type(exc).__name__)
+            val = ("unparsable", h, type(exc).__name__)
         if len(_ISO_CACHE) > 4000:
             _ISO_CACHE.clear()
+        _ISO_CACHE[h] = val
     return _ISO_CACHE[h]
 
 
